@@ -22,18 +22,31 @@ theorem C09_present_key_refused (s : St) (m : ModId) (x : Src) (i : SrcId) (h : 
 module is RUNNING) and added to the module's registry -/
 theorem C09_new_key_registered (s : St) (m : ModId) (md : Mod) (x : Src) (hm : s.mods[m]? = some md)
     (h : findSrc s m x.kind x.key x.role = none)
-    (hk : ¬ (x.kind == .fd && stateIs s m .running && s.srcs.any (fun y => y.kind == .fd && y.key == x.key && y.polled && y.registered)) = true) :
+    (hk : ¬ (x.kind == .fd && stateIs s m .running && s.srcs.any (fun y => y.kind == .fd && y.key == x.key && y.polled && y.registered)) = true)
+    (hp : ¬ (x.kind == .fd && stateIs s m .running && unpollable x.key) = true) :
     (addSrc s m x).2 = 0 ∧
     (addSrc s m x).1.srcs = s.srcs ++ [{ x with polled := stateIs s m .running, registered := true }] ∧
     (addSrc s m x).1.mods[m]? = some { md with srcs := md.srcs ++ [s.srcs.length] } := by
   have hlt : m < s.mods.length := (List.getElem?_eq_some_iff.mp hm).1
   have hget : s.mods[m] = md := (List.getElem?_eq_some_iff.mp hm).2
   unfold addSrc
-  simp only [h, hk, Bool.false_eq_true, if_false]
+  simp only [h, hk, hp, Bool.false_eq_true, if_false]
   refine ⟨?_, ?_, ?_⟩
   · trivial
   · simp
   · simp [St.updMod, hm, hlt, hget]
+
+/-- a descriptor the poll set refuses (a regular file) offered to a RUNNING module: the kernel's error comes back and the
+registration leaves no trace — neither in the registry nor in the source table; a duplicate made on request is closed again -/
+theorem C09_unpollable_leaves_no_trace (s : St) (m : ModId) (x : Src)
+    (h : findSrc s m x.kind x.key x.role = none)
+    (hk : ¬ (x.kind == .fd && stateIs s m .running && s.srcs.any (fun y => y.kind == .fd && y.key == x.key && y.polled && y.registered)) = true)
+    (hp : (x.kind == .fd && stateIs s m .running && unpollable x.key) = true) :
+    (addSrc s m x).2 = EPERM ∧ (addSrc s m x).1.mods = s.mods ∧ (addSrc s m x).1.srcs = s.srcs ∧
+    (addSrc s m x).1.out = if x.dup then s.out ++ [.close (.dup x.key)] else s.out := by
+  unfold addSrc
+  simp only [h, hk, hp, Bool.false_eq_true, if_false, if_true]
+  split <;> simp [St.emit]
 
 /-- the lookup finds a registered source by its identifying value, wherever it sits in the registry -/
 theorem C09_lookup_finds_key (s : St) (m : ModId) (md : Mod) (i : SrcId) (x : Src) (hm : s.mods[m]? = some md)
